@@ -32,7 +32,19 @@ Inductive reply :=
 | RTransport           (* connection closed / read error *)
 | RGarbage             (* a frame that does not parse as a produce response *)
 | RNoPartition         (* a well-formed response that names no partition *)
-| RNoBackend.          (* connectBackend fails *)
+| RNoBackend           (* connectBackend fails *)
+| RLate (c : Z)        (* the broker answers this request with code c, but only after the proxy's
+                          deadline (dialTimeout): forwardToBackend returns a timeout error *)
+| RWrongCorr (c : Z).  (* the broker's answer (code c) carries another correlation id *)
+
+(* the error code with which the broker itself answered THIS produce request, if it did *)
+Definition broker_answer (r : reply) : option Z :=
+  match r with
+  | RCode c => Some c
+  | RLate c => Some c
+  | RWrongCorr c => Some c
+  | _ => None
+  end.
 
 Record config := mkCfg { c_part_size : Z; c_min_part : Z; c_max_blob : Z }.
 
@@ -100,14 +112,24 @@ Section Ext.
   Definition checksum_of (alg : Z) (b : blob) : bytes :=
     if alg =? 3 then [] else hashf alg b.
 
-  (* FIX a: lfsCheckProduceResponse — only an error-free acknowledgement counts *)
+  (* FIX a: lfsCheckProduceResponse — only an error-free acknowledgement counts.
+     ASSUMPTION "one request per connection": connectBackend dials a fresh connection for every
+     upload and the handler closes it afterwards, so the first frame forwardToBackend reads on
+     it is the broker's answer to this very request.  forwardToBackend does NOT compare the
+     correlation id of the frame with the request's ([RWrongCorr] is taken at face value); the
+     obligation "the frame read answers this request" rests on that assumption alone.  The
+     harness checks it on every run: the broker fake counts the requests per accepted
+     connection (must be 1) and the acknowledgement clause of the oracle is evaluated on the
+     broker's own log for the envelope's record, not on what the proxy read. *)
   Definition broker_status (r : reply) : Z :=
     match r with
     | RNoBackend => 503
     | RTransport => 502
     | RGarbage => 502
     | RNoPartition => 502
+    | RLate _ => 502
     | RCode c => if c =? 0 then 200 else 502
+    | RWrongCorr c => if c =? 0 then 200 else 502
     end.
 
   (* UploadStream's multipart loop over the remaining pieces: (status, faults left, parts, total) *)
